@@ -46,7 +46,7 @@ def chain_specs(tier):
     # naming and size variants on a few chains: vg-style numeric ids, names with non-word characters, a haplotype allele
     # longer than the whole reference of the component
     for bl in ([], ["snp"], ["snp", "link"], ["insertion", "deletion"]):
-        for kw in ({"id_style": "numeric"}, {"id_style": "odd"}, {"long_hap": True}):
+        for kw in ({"id_style": "numeric"}, {"id_style": "odd"}, {"long_hap": True}, {"self_links": True}):
             out.append({"blocks": bl, "ends": ["tip", "open"] if bl else ["tip", "tip"], "kw": kw})
     for bl in gen.chains(b["max_blocks"]):
         for e in ENDS if len(bl) <= 1 else ENDS[:2] if len(bl) == 2 else ENDS[:1]:
@@ -183,6 +183,30 @@ def multi_chrom(res, scratch, tier):
             lines = g.lines()
             t = "".join(lines[i] + "\n" for i in list(range(len(lines)))[::-1])
             judge_run(res, scratch, t, chains, ",".join(names), None, False, "multi-chromosome, reversed line order")
+    # two runs into the same output directory with different chromosome orders (complete file mode): the second result
+    # must be that of the second request only
+    a_ = gen.Chain(["snp"], chrom="chr1", decl="alt")
+    b_ = gen.Chain(["deletion"], chrom="chr2", id_base=40, hap="hB#1#c", decl="rev")
+    gab = gen.merge_graphs([a_.g, b_.g])
+    oc.run_order(scratch, gab.text(), "chr1,chr2", by_chrom=False, tag="twice")
+    run2 = oc.run_order(scratch, gab.text(), "chr2,chr1", by_chrom=False, tag="twice", keep_outdir=True)
+    res.evaluations += 1
+    res.count("second_run_into_same_outdir")
+    case2 = {"gfa": gab.text(), "chromosome_order": "chr2,chr1", "root": None, "flip": False, "by_chrom": False, "hashseed": 0, "after_run_with_order": "chr1,chr2"}
+    t2 = run2.gfa("complete") if run2.outcome.kind == "ok" else None
+    if t2 is None:
+        res.fail(f"C06/second-run-failed:{run2.outcome.sig()}", f"second run into the same directory: {run2.outcome.brief()}", case2)
+    else:
+        slines = [l for l in t2.split("\n") if l.startswith("S")]
+        tags2 = oc.bo_no_map(t2)
+        if len(slines) != len(gab.segs):
+            res.fail("C06/second-run-duplicates", f"after a second run into the same directory the complete file lists {len(slines)} S lines for {len(gab.segs)} segments", case2)
+        else:
+            for c in (a_, b_):
+                for kind, text_ in oc.judge_chain_tags(tags2, c.order):
+                    res.fail(f"C06/second-run:{kind}", f"second run into the same directory [{c.chrom}]: {text_}", case2)
+            if not max(tags2[n][0] for n in b_.g.segs) < min(tags2[n][0] for n in a_.g.segs):
+                res.fail("C06/second-run:chromosome-ranges", "second run (chr2,chr1) into the same directory: chr2 is not numbered before chr1", case2)
     # one long chain (320 blocks, about 1000 segments): sizes beyond any small internal threshold
     long_blocks = (gen.BLOCKS * 40)
     lc = gen.Chain(long_blocks, chrom="chr1", decl="alt")
@@ -248,9 +272,9 @@ def run_shard(spec, tier, scratch):
 def replay(case, scratch):
     res = fw.ShardResult()
     g = rgfa.Graph.parse(case["gfa"])
-    if case["chromosome_order"] == "":
+    if case["chromosome_order"] == "" or case.get("after_run_with_order"):
         multi_chrom(res, scratch, "quick")
-        return [f for f in res.failures if f["case"].get("chromosome_order") == ""]
+        return [f for f in res.failures if f["case"].get("chromosome_order") == "" or f["case"].get("after_run_with_order")]
     # rebuild expectations from the graph itself (brute-force model), per chromosome
     chains = []
     adj = g.adjacency()
